@@ -6,7 +6,8 @@ Legs
   K  correspondence C vs Impl.OpenType:
        table   dumped asn_ioc_set_t (+ alignment with the member's CHOICE elements) = buildTable(object-set syntax)
        select  the generated type_selector on every row id and on unknown ids = select
-       get     frame decode outcome (ok present / fail / crash) = otGet/xerGet fed with the outcomes of the row
+       get     frame decode outcome (ok present / fail / crash) and, after a failure, the state of the member's storage
+               (NULL pointer / presence 0) = otGet/xerGet + slotAfter fed with the outcomes of the row
                types' own stand-alone decoders on the member's bytes (valid, mismatched, unknown-id frames)
        framing uper_open_type_put / _get on fixed-width row types = openPut / openGet (incl. fragmentation,
                padding-bit and length surgery)
@@ -15,6 +16,8 @@ Legs
      framing (X.691 10.2 field computed in python); mismatches never decode as a non-paired type; unknown
      ids fail; mutated encodings (every truncation, bit flips): no crash, and whenever the decoder says OK
      the stored row is the row paired with the decoded identifier.
+Inside the checked domain since the repairs of F105 / F22 / F102: mismatched rows and damaged members of every row
+type (no crash excused), OPTIONAL open type members (present and absent), untagged open type members under BER.
 OER is left out: asn_OP_OPEN_TYPE has no OER encoder (slot 0; encoding a Frame fails), the property names
 BER, XER, PER.
 """
@@ -26,8 +29,7 @@ from . import c01
 DS = ("gen_c18_driver.c", "ops_gen_core.c", "ops_gen_c18.c", "reflect.c")
 OPTS = ("-no-gen-example", "-fcompound-names")
 SYN = ("der", "uper", "xer", "cxer")
-# crashes are frequent on the unchanged tree (F105): no symbolizer / stack traces in the batch runs (a crash costs two
-# process runs in run_c_bisect); classify_crash re-runs the single line with full reports when it needs the stack
+# no symbolizer / stack traces in the batch runs (a crash costs two process runs in run_c_bisect)
 FAST = {"ASAN_OPTIONS": "detect_leaks=1:abort_on_error=0:allocator_may_return_null=1:symbolize=0", "UBSAN_OPTIONS": "print_stacktrace=0:halt_on_error=1"}
 PROPOSED = os.path.join(os.path.dirname(os.path.abspath(__file__)), "c18_findings.json")
 
@@ -197,6 +199,14 @@ def frame_same(m, env, dumped, expected):
     except Exception:
         return False
 
+def member_index(m, fsx):
+    """position of the open type member among the members present in the frame value `fsx`"""
+    k = 0
+    for kind, v in genmod_ioc.frame_members(m):
+        if kind == "value": return k
+        if kind == "ident" or f"({v['id']} " in fsx: k += 1
+    return k
+
 RT_RE = re.compile(r"rc=(\w+) consumed=(\d+)/(\d+)(?: cmp=(-?\d+) der_same=(\d) val=(.*))?$")
 
 # ------------------------------------------------------------------ findings (KNOWN_FINDINGS.json + proposed entries)
@@ -211,19 +221,54 @@ def load_findings(ctx):
         pass
     return {f["id"]: f for f in ctx.findings}
 
-F105_SIG = re.compile(r"OPEN_TYPE\.c:\d+:\d+: runtime error: member access within null pointer of type 'const struct asn_CHOICE_specifics_t'")
+def run_c(ctx, exe, lines, env=None):
+    """ctx.run_c_bisect + attribution of leaks.  LeakSanitizer reports at exit, after every line has been answered;
+    run_c_bisect reads that as "the last line killed the driver", re-runs the last line alone and - unless that very
+    line leaks - drops the report.  Here a batch that answered every line but exited non-zero with a leak report is
+    split in halves down to the leaking line(s): `CRASH LeakSanitizer ...`."""
+    outs = [None] * len(lines); crashes = 0
+    def go(lo, hi):
+        nonlocal crashes
+        rc, out, err = ctx.run_lines(exe, lines[lo:hi], **({"env": env} if env else {}))
+        if rc == 0 and len(out) == hi - lo:
+            outs[lo:hi] = out; return
+        if rc != 0 and len(out) == hi - lo and "LeakSanitizer" in err and not (out and out[-1] == "HANG"):
+            if hi - lo == 1:
+                crashes += 1
+                summ = next((l.strip()[:200] for l in err.split("\n") if l.startswith("SUMMARY:")), "")
+                outs[lo] = "CRASH LeakSanitizer: detected memory leaks | " + summ + " | after: " + out[0][:200]
+            else:
+                mid = (lo + hi) // 2
+                go(lo, mid); go(mid, hi)
+            return
+        o, c = ctx.run_c_bisect(exe, lines[lo:hi], **({"env": env} if env else {}))
+        outs[lo:hi] = o; crashes += c
+    if lines: go(0, len(lines))
+    return outs, crashes
 
-def classify_crash(ctx, exe, line, summary, unsafe_module):
-    """returns the finding id a crash belongs to, or None (= violation)"""
-    if F105_SIG.search(summary): return "F105" if unsafe_module else None
-    if not unsafe_module: return None
-    try:
-        rc, out, err = ctx.run_lines(exe, [line])
-    except Exception:
-        return None
-    frames = re.findall(r"#\d+ 0x[0-9a-f]+ in (\S+)", err)[:4]
-    if any(re.match(r"OPEN_TYPE_(ber|xer|uper)_get$", f) for f in frames) and re.search(r"memset", " ".join(frames[:2])): return "F105"
-    return None
+def replay_fixed_witnesses(ctx):
+    """regression: the witness of every *fixed* finding of this property must no longer reproduce on the working tree"""
+    n = 0
+    for f in ctx.findings:
+        w = f.get("witness", {})
+        if f.get("status") != "fixed" or f.get("property") != ctx.prop or "module" not in w or "op" not in w or not w.get("expect"): continue
+        names = re.findall(r"(\w+)\s*::=", w["module"].split("BEGIN", 1)[1])
+        b = bundle.Bundle("x" + f["id"], w["module"], names, driver_sources=DS, opts=OPTS)
+        try:
+            exe = b.build()
+            line = f"@{w.get('type', names[0])} {w['op']}"
+            outs, _ = run_c(ctx, exe, [line], env=FAST)
+            o = str(outs[0] or "CRASH")
+            n += 1; ctx.cov["evaluations"] += 1
+            if re.search(w["expect"], o):
+                ctx.violation(f"C18: fixed finding {f['id']} reproduces again on its witness: {line[:200]} -> {o[:160]} ({f['what'][:160]})",
+                              {"module": w["module"], "type": w.get("type", names[0]), "op": w["op"], "c_output": o, "finding": f["id"]})
+            else: ctx.count_nontrivial(("fixed-witness", f["id"]))
+        except (bundle.Asn1cFailed, build.BuildError) as e:
+            ctx.broken.append({"kind": "harness", "msg": f"witness module of fixed finding {f['id']} does not build: {str(e)[-200:]}"})
+        finally:
+            b.cleanup()
+    ctx.cov["fixed_witnesses_replayed"] = n
 
 # ------------------------------------------------------------------ the check
 class Run:
@@ -264,7 +309,7 @@ def k_table_select(R, m, exe, want_complete=True):
     P: the table holds exactly the objects of the set (only asked for inside the clean domain)."""
     ctx = R.ctx
     ioc = m["ioc"]; rows = ioc["rows"]
-    outs, _ = ctx.run_c_bisect(exe, ["@Frame ioc"])
+    outs, _ = run_c(ctx, exe, ["@Frame ioc"])
     info = parse_ioc(outs[0] or "")
     if not info or not info["members"] or info["rows"] is None:
         R.fail("ioc-dump", m, "@Frame ioc", outs[0]); return None
@@ -300,7 +345,7 @@ def k_table_select(R, m, exe, want_complete=True):
     if mem.get("selector") == "1":
         sel_lines = [f"@Frame select (seq (ident (int {i})))" for i in ids + unknown]
         sel_model = [f"c18sel {tbl_txt} {i}" for i in ids + unknown]
-        co, _ = ctx.run_c_bisect(exe, sel_lines, env=FAST)
+        co, _ = run_c(ctx, exe, sel_lines, env=FAST)
         mo2 = model_lines(ctx, sel_model)
         st = ctx.cov["correspondence"].setdefault("select", {"lines": 0, "disagreements": 0, "c_crashes": 0})
         for l, c, mdl in zip(sel_lines, co, mo2):
@@ -327,11 +372,14 @@ def check_module(R, m, exe, nvals, nmut, findings):
     # paired row per identifier as the *standard* says (UNIQUE ids): id -> row type name
     paired = {}
     for i, t in genmod_ioc.spec_objects(m): paired.setdefault(i, t)
-    specs = "".join(dict((e[1], e[2]) for e in elems).get(names_by_ti[k], "s") for k in range(len(names_by_ti)))
-    unsafe = {e[1] for e in elems if e[2] in "nw"}
-    simple_uper = f["id_first"] and not f["seq_ext"] and not any(e["pos"] in ("pre", "mid") for e in f["extras"])
-    nopt_post = sum(1 for e in f["extras"] if e["opt"])
+    open_ext = bool(f.get("open_ext"))        # the open type member is an extension addition: UPER cannot decode it (F109)
+    if open_ext: R.stats["modules_open_type_extension_addition"] += 1
+    simple_uper = f["id_first"] and not f["seq_ext"] and not open_ext and not any(e["pos"] in ("pre", "mid") for e in f["extras"])
+    nopt_post = sum(1 for e in f["extras"] if e["opt"]) + (1 if f["open_opt"] else 0)
     vpos = [k for k, _ in genmod_ioc.frame_members(m)].index("value")
+    untagged = bool(f.get("manual")) and f["open_tag"] is None
+    if untagged: R.stats["modules_open_type_untagged"] += 1
+    if f["open_opt"]: R.stats["modules_open_type_optional"] += 1
     T0 = time.time()
     def tick(name):
         nonlocal T0
@@ -352,13 +400,19 @@ def check_module(R, m, exe, nvals, nmut, findings):
                 if c01.skip_region(syn, feats, R.skipped): continue
                 if syn in ("xer", "cxer") and len(fsx) > 20000: continue
                 lines.append(f"@Frame rt {syn} {fsx}"); meta.append(("rt", row, fsx, syn))
+            if f["open_opt"] and vi < 2:
+                # the OPTIONAL open type member left out: nothing to resolve, the frame round-trips
+                fsx0 = genmod_ioc.frame_sexp(m, row["id"], None, None, ex, env)
+                lines.append("@Frame echo " + fsx0); meta.append(("echo", row, fsx0, None))
+                for syn in SYN:
+                    lines.append(f"@Frame rt {syn} {fsx0}"); meta.append(("rt", dict(row, absent=True), fsx0, syn))
             if not c01.skip_region("der", feats, collections.Counter()):
                 lines.append(f"@{row['name']} enc der {sx}"); meta.append(("rowder", row, fsx, None))
             if not c01.skip_region("uper", feats, collections.Counter()):
                 lines.append(f"@{row['name']} uperbits {sx}"); meta.append(("rowuper", row, (fsx, ex), None))
     outs = []; ncrash = 0
     for i in range(0, len(lines), 100):
-        o_, c_ = ctx.run_c_bisect(exe, lines[i:i + 100], env=FAST)
+        o_, c_ = run_c(ctx, exe, lines[i:i + 100], env=FAST)
         outs += o_; ncrash += c_
         if ncrash > 40:                     # a broken tree: do not spend minutes on bisecting hundreds of crashes
             outs += ["SKIPPED"] * (len(lines) - len(outs)); break
@@ -377,6 +431,8 @@ def check_module(R, m, exe, nvals, nmut, findings):
             why = None
             if not o.startswith("ok "): why = "encode:" + o.split()[0]
             elif not mm: why = "unparsable"
+            elif open_ext and syn == "uper" and not row.get("absent") and mm.group(1) == "fail" and "F109" in findings:
+                R.known["F109"] += 1; continue          # clean failure (a crash is reported above)
             elif mm.group(1) != "ok": why = "decode-rc=" + mm.group(1)
             elif mm.group(2) != mm.group(3) and not (syn == "xer" and int(mm.group(2)) + 1 == int(mm.group(3))): why = "consumed"
             elif mm.group(4) != "0": why = "cmp!=0"
@@ -386,6 +442,9 @@ def check_module(R, m, exe, nvals, nmut, findings):
             else:
                 ctx.count_nontrivial(("rt", syn, m["name"], fsx[:100]))
                 R.stats["roundtrips_ok"] += 1
+                if isinstance(row, dict) and row.get("absent"): R.stats["roundtrips_ok_member_absent"] += 1
+                elif f["open_opt"]: R.stats["roundtrips_ok_optional_member_present"] += 1
+                if untagged and syn == "der": R.stats["roundtrips_ok_untagged_der"] += 1
                 last_rt[(fsx, syn)] = o.split()[1]
                 R.sample("roundtrip-" + syn, module=genmod_ioc.module_text(m), op=l, c=o)
                 valid.append((syn, row, fsx, o.split()[1]))
@@ -397,7 +456,11 @@ def check_module(R, m, exe, nvals, nmut, findings):
                 top = der_tlvs(fb)
                 inner = None
                 if top and len(top) == 1:
-                    for idn, content, _ in der_tlvs(top[0][1]) or []:
+                    tl = der_tlvs(top[0][1]) or []
+                    if untagged:                # the member *is* the row's TLV, at the member's position among the present ones
+                        k = member_index(m, fsx)
+                        if k < len(tl): inner = tl[k][0] + tl[k][1]
+                    for idn, content, _ in ([] if untagged else tl):
                         if idn[:1] == bytes([0xa0 | vpos]) and vpos < 31: inner = content
                 want = "" if o.split()[1] == "-" else o.split()[1]
                 if inner is None or inner.hex() != want: R.fail("ber-framing", m, l, o, {"frame_der": h})
@@ -409,7 +472,7 @@ def check_module(R, m, exe, nvals, nmut, findings):
                 rb = o.split()[2] if len(o.split()) > 2 and o.split()[2] != "-" else ""
                 field = open_type_field(rb)
                 fbits = bits_of(bytes.fromhex(h))
-                pre = ""
+                pre = "1" if f["open_opt"] else ""          # preamble: one bit per OPTIONAL member, in member order
                 for e in f["extras"]:
                     if e["opt"]: pre += "1" if e["id"] in ex else "0"
                 pre += uper_ident_bits(m, row["id"])
@@ -423,7 +486,7 @@ def check_module(R, m, exe, nvals, nmut, findings):
     # ---------------- mismatches and unknown identifiers (P4, P5) + get-level correspondence (K2)
     # a syntax in which some row type has no codec at all (F32: SET under UPER) is left out of the mismatch /
     # mutation tests of this module: a mutated identifier could select that row
-    noskip_free = {syn for syn in ("der", "uper", "cxer") if any(c01.skip_region(syn, gfind.features(env[r["name"]], env), collections.Counter()) for r in rows)}
+    noskip_free = ({"uper"} if open_ext else set()) | {syn for syn in ("der", "uper", "cxer") if any(c01.skip_region(syn, gfind.features(env[r["name"]], env), collections.Counter()) for r in rows)}
     enc_lines = []; enc_meta = []
     for i, rowi in enumerate(rows):
         others = [r for r in rows if r["name"] != rowi["name"]]
@@ -443,8 +506,8 @@ def check_module(R, m, exe, nvals, nmut, findings):
                 if c01.skip_region(syn, gfind.features(env[rowj["name"]], env), collections.Counter()): continue
                 enc_lines.append(f"@Frame enc {syn} {fsx}"); enc_meta.append(("unknown", syn, u, rowj["name"], fsx))
     for syn, row, fsx, h in valid:
-        if syn != "xer" and len(h) <= 3000: enc_meta.append(("valid", "cxer" if syn == "cxer" else syn, row["id"], row["name"], fsx)); enc_lines.append(f"@Frame enc {syn} {fsx}")
-    eouts, _ = ctx.run_c_bisect(exe, enc_lines, env=FAST)
+        if syn != "xer" and len(h) <= 3000: enc_meta.append(("valid", "cxer" if syn == "cxer" else syn, row["id"], None if row.get("absent") else row["name"], fsx)); enc_lines.append(f"@Frame enc {syn} {fsx}")
+    eouts, _ = run_c(ctx, exe, enc_lines, env=FAST)
     dec_lines = []; dec_meta = []
     for l, o, me in zip(enc_lines, eouts, enc_meta):
         o = str(o)
@@ -453,7 +516,7 @@ def check_module(R, m, exe, nvals, nmut, findings):
         h = o.split()[1]
         dec_lines.append(f"@Frame odec {me[1]} {h}"); dec_meta.append(me + (h,))
     tick("enc")
-    douts, _ = ctx.run_c_bisect(exe, dec_lines, env=FAST)
+    douts, _ = run_c(ctx, exe, dec_lines, env=FAST)
     tick("dec")
     # inner outcome of every row type's own decoder on the member's bytes (input of the model)
     inner_lines = []; inner_idx = []
@@ -461,10 +524,15 @@ def check_module(R, m, exe, nvals, nmut, findings):
         kind, syn, idv, rowname, fsx, h = me
         member = None
         if len(inner_lines) > 1200: break
+        if rowname is None: continue              # open type member absent: the getter is not reached
         if syn == "der":
             top = der_tlvs(bytes.fromhex(h))
             if top and len(top) == 1:
-                for idn, content, _ in der_tlvs(top[0][1]) or []:
+                tl = der_tlvs(top[0][1]) or []
+                if untagged:
+                    k2 = member_index(m, fsx)
+                    if k2 < len(tl): member = (tl[k2][0] + tl[k2][1]).hex()
+                for idn, content, _ in ([] if untagged else tl):
                     if idn[:1] == bytes([0xa0 | vpos]): member = content.hex() or "-"
         elif syn == "cxer":
             t = bytes.fromhex(h).decode("utf-8", "replace")
@@ -478,7 +546,7 @@ def check_module(R, m, exe, nvals, nmut, findings):
             if syn == "uper": inner_lines.append(f"@{tname} oget {member or '-'}")
             else: inner_lines.append(f"@{tname} dec {'der' if syn == 'der' else 'xer'} {member}")
             inner_idx.append((k, tname, len(member)))
-    iouts, _ = ctx.run_c_bisect(exe, inner_lines, env=FAST)
+    iouts, _ = run_c(ctx, exe, inner_lines, env=FAST)
     tick("inner")
     inner = collections.defaultdict(dict)
     for (k, tname, mlen), l, o in zip(inner_idx, inner_lines, iouts):
@@ -495,7 +563,7 @@ def check_module(R, m, exe, nvals, nmut, findings):
         if k not in inner or any(v == "c" for v in inner[k].values()): continue
         outs_s = "".join(inner[k].get(names_by_ti[j], "f") for j in range(len(names_by_ti)))
         syn = {"der": "ber", "uper": "uper", "cxer": "xer"}[me[1]]
-        glines.append(f"c18get {syn} {tbl_txt} {len(elems)} {mem.get('ptr', '0')} {specs} {me[2]} {outs_s}"); gk.append(k)
+        glines.append(f"c18get {syn} {tbl_txt} {len(elems)} {mem.get('ptr', '0')} {me[2]} {outs_s}"); gk.append(k)
     gouts = model_lines(ctx, glines) if glines else []
     model_of = dict(zip(gk, gouts))
     elem_names = [e[0] for e in elems]
@@ -506,10 +574,8 @@ def check_module(R, m, exe, nvals, nmut, findings):
         # --- P: the property predicate on C's outcome
         got = None
         if o.startswith("CRASH"):
-            fid = classify_crash(ctx, exe, l, o, bool(unsafe))
             got = "crash"
-            if fid and fid in findings: R.known[fid] += 1
-            else: R.fail(f"crash:{kind}:{syn}", m, l, o)
+            R.fail(f"crash:{kind}:{syn}", m, l, o)
         else:
             p = o.split(" ", 2)
             if p[0] == "ok":
@@ -518,6 +584,9 @@ def check_module(R, m, exe, nvals, nmut, findings):
                 got = "ok %d" % (elem_names.index(orow) + 1) if orow in elem_names else "ok ?"
                 pid = repr(id_of_sexp(fp.get("ident")))
                 if kind == "unknown": R.fail(f"unknown-id-decoded:{syn}", m, l, o)
+                elif rowname is None:
+                    if "value" in fp or not frame_same(m, env, p[2], fsx): R.fail(f"valid-decode-differs:{syn}", m, l, o)
+                    else: ctx.count_nontrivial((kind, syn, m["name"], h[:60]))
                 elif paired.get(pid) != dict((e[0], e[1]) for e in elems).get(orow):
                     R.fail(f"decoded-type-not-paired-type:{syn}", m, l, o)
                 elif kind == "valid" and not frame_same(m, env, p[2], fsx): R.fail(f"valid-decode-differs:{syn}", m, l, o)
@@ -534,7 +603,11 @@ def check_module(R, m, exe, nvals, nmut, findings):
         if k in model_of:
             gst["lines"] += 1
             want = model_of[k]
-            if want == "more": want = "fail"
+            if want.split()[0] in ("more", "fail"):
+                # a failed getter leaves the member empty: NULL pointer / presence 0 (Impl.OpenType.slotAfter)
+                want = "fail " + want.split()[1]
+                sm = re.search(r" slot=(\w+)$", o)
+                if got == "fail": got = "fail " + (sm.group(1) if sm else "?")
             if want != got:
                 gst["disagreements"] += 1
                 R.kdis.append({"kind": "get", "module": genmod_ioc.module_text(m), "op": l, "c": o[:200], "model": model_of[k], "model_op": glines[gk.index(k)]})
@@ -542,7 +615,7 @@ def check_module(R, m, exe, nvals, nmut, findings):
     tick("classify")
     # ---------------- mutated encodings (P6)
     mlines = []; mmeta = []
-    budget = nmut if not unsafe else max(40, nmut // 8)
+    budget = nmut
     seen = set()
     per = max(1, budget // max(1, len(valid)))
     for syn, row, fsx, h in valid:
@@ -556,15 +629,13 @@ def check_module(R, m, exe, nvals, nmut, findings):
             if key in seen: continue
             seen.add(key)
             mlines.append(f"@Frame odec {'xer' if syn == 'cxer' else syn} {mb.hex() or '-'}"); mmeta.append(syn)
-    mouts, _ = ctx.run_c_bisect(exe, mlines, env=FAST)
+    mouts, _ = run_c(ctx, exe, mlines, env=FAST)
     tick("mut-run")
     for l, o, syn in zip(mlines, mouts, mmeta):
         o = str(o)
         R.stats["mutated"] += 1
         if o.startswith("CRASH"):
-            fid = classify_crash(ctx, exe, l, o, bool(unsafe))
-            if fid and fid in findings: R.known[fid] += 1
-            else: R.fail(f"crash:mutated:{syn}", m, l, o)
+            R.fail(f"crash:mutated:{syn}", m, l, o)
             continue
         p = o.split(" ", 2)
         if p[0] not in ("ok", "more", "fail"): R.fail("bad-rc", m, l, o); continue
@@ -573,13 +644,13 @@ def check_module(R, m, exe, nvals, nmut, findings):
             val = fp.get("value")
             orow = val[1] if isinstance(val, list) and len(val) > 1 else None
             pid = repr(id_of_sexp(fp.get("ident")))
-            if orow == "-none" and f["open_opt"]: continue
+            if val is None and f["open_opt"]:
+                ctx.count_nontrivial(("mut-ok-absent", syn, l[-40:])); continue      # member absent: nothing to resolve
             if paired.get(pid) is None or paired.get(pid) != dict((e[0], e[1]) for e in elems).get(orow):
                 R.fail(f"decoded-type-not-paired-type:mutated:{syn}", m, l, o)
             else: ctx.count_nontrivial(("mut-ok", syn, l[-40:]))
         else: ctx.count_nontrivial(("mut", syn, p[0], l[-24:]))
     tick("mut-classify")
-    if not unsafe: R.stats["modules_all_rows_size_led_specifics"] += 1
 
 # ------------------------------------------------------------------ framing correspondence on a fixed module
 FIX = """FX DEFINITIONS AUTOMATIC TAGS ::= BEGIN
@@ -609,7 +680,7 @@ def framing_correspondence(R):
             for v in vs:
                 lines.append(f"@{t} uperbits {v}"); meta.append((t, v, "bits"))
                 lines.append(f"@{t} oput {v}"); meta.append((t, v, "put"))
-        outs, _ = ctx.run_c_bisect(exe, lines)
+        outs, _ = run_c(ctx, exe, lines)
         st = ctx.cov["correspondence"].setdefault("uper_open_type_put", {"lines": 0, "disagreements": 0, "c_crashes": 0})
         fields = []
         mlines = []; cfields = []
@@ -642,7 +713,7 @@ def framing_correspondence(R):
             variants.add("11000101" + fb[8:]); variants.add("11000000" + fb[8:])
             for vb in sorted(variants):
                 glines.append(f"@{t} oget {vb or '-'}"); gm.append(f"c18oget {k} {vb or '-'}")
-        couts, _ = ctx.run_c_bisect(exe, glines)
+        couts, _ = run_c(ctx, exe, glines)
         mouts = model_lines(ctx, gm)
         st2 = ctx.cov["correspondence"].setdefault("uper_open_type_get", {"lines": 0, "disagreements": 0, "c_crashes": 0})
         for l, c, mo_ in zip(glines, couts, mouts):
@@ -685,7 +756,7 @@ def probe_shapes(R, findings):
             if ioc["idkind"] != "OID":
                 k_table_select(R, m, exe, want_complete=False)      # K also outside the clean domain (duplicate ids, dropped rows)
                 R.stats["modules"] -= 1
-            outs, _ = ctx.run_c_bisect(exe, lines)
+            outs, _ = run_c(ctx, exe, lines)
             info = parse_ioc(str(outs[0])) or {"rows": None}
             nrows = len(info["rows"] or [])
             cls = collections.Counter()
@@ -720,6 +791,7 @@ def run(ctx):
     findings = load_findings(ctx)
     R = Run(ctx)
     gfind.replay_witnesses(ctx, driver_sources=DS)
+    replay_fixed_witnesses(ctx)
     ctx.log("witnesses replayed")
     framing_correspondence(R)
     ctx.log("framing correspondence done")
@@ -732,8 +804,9 @@ def run(ctx):
     mods = []
     for i in range(nb):
         nrows = [1, 2, 3, 5][i] if i < 4 else None
-        mods.append(g.gen_module(f"M{i}", "clean", nrows=nrows))
-    # two modules whose rows all have size-led specifics: every crash there is a new defect (no F105 excuse)
+        mods.append(g.gen_module(f"M{i}", "clean", nrows=nrows, open_opt=(True if i in (1, 5) else None), untagged=(True if i in (2, 6) else None),
+                                 open_ext=(True if i == 7 else None)))
+    # modules whose rows all have size-led specifics (the former F105-free sub-domain; kept for its row-type mix)
     gs = genmod_ioc.IocGen(ctx.rng, safe_rows=True)
     mods += [gs.gen_module(f"MS{i}", "clean") for i in range(4 if ctx.quick else 16)]
     built = 0
